@@ -231,7 +231,16 @@ def post_interpreter(expr, context, dimensions, result, OLD):
         want = refops.evaluate(old, context, dimensions)
     except Exception as e:  # noqa: BLE001
         return _rec("C16", fn, False, f"accepted an expression the reference rejects: {e}", cell=cell, mode="accepted-malformed", head=str(head))
-    ok, d = _cmp(result, want, 2e-6 if _has_expm(old) else 1e-8)
+    # tolerance relative to the size of the value: products of several matrices and matrix exponentials of
+    # non-normal arguments reach entries of 1e3 .. 1e6, where two float64 implementations differ in absolute terms
+    try:
+        scale = max(1.0, float(np.max(np.abs(np.asarray(want, dtype=complex)))))
+    except Exception:  # noqa: BLE001
+        scale = 1.0
+    if not np.isfinite(scale) or scale > 1e6:
+        COUNT["interpreter-ill-conditioned"] = COUNT.get("interpreter-ill-conditioned", 0) + 1
+        return True
+    ok, d = _cmp(result, want, (2e-6 if _has_expm(old) else 1e-8) * scale)
     if not ok:
         return _rec("C16", fn, False, f"{d} expr={_brief(old)}", cell=cell, mode="wrong-value", head=str(head))
     # caller-owned leaves unchanged
@@ -284,7 +293,8 @@ def post_overlap_integral(self, other, delay, result):
         got = float(np.real(result))
     except Exception:
         return _rec("C19", "overlap_integral", False, f"non-numeric result {result!r}", cell=cell, mode="bad-result", decade=dec)
-    ok = abs(got - want) <= 1e-6 and -1e-9 <= got <= 1 + 1e-9
+    # quad's default absolute error target is 1.5e-8: "within [0, 1]" is judged with that much slack
+    ok = abs(got - want) <= 1e-6 and -1e-7 <= got <= 1 + 1e-7
     return _rec("C19", "overlap_integral", ok, f"sigma=({s1:.3g},{s2:.3g}) shift={dlt:.3g}: got {got:.9g}, closed form {want:.9g}",
                 cell=cell, mode="wrong-overlap", decade=dec)
 
